@@ -35,6 +35,11 @@ inductive FOp
 
 structure APool where
   cap : Nat
+  /-- slack of the pool's own counter over the holders: 0 for the low-memory pool (`inUse()` clips to the
+      capacity); for the standard pool the readers whose `back` has refilled its slot but not yet done
+      `inUseEvents.Dec()` (Props/C05 `std_held_le_capacity`: inUse = #(holding … bdec)), at most the
+      number of readers -/
+  slack : Nat := 0
   held : List (Nat × Int) := []
   deriving Repr
 
@@ -43,7 +48,7 @@ def APool.step? (p : APool) : FOp → Option APool
     if p.held.length < p.cap ∧ !(p.held.any (·.1 == r)) ∧ (e < 0 ∨ !(p.held.any (·.2 == e))) ∧ e < p.cap
     then some { p with held := (r, e) :: p.held } else none
   | .back r => if p.held.any (·.1 == r) then some { p with held := p.held.filter (·.1 != r) } else none
-  | .sample n => if n ≤ p.cap then some p else none
+  | .sample n => if n ≤ p.cap + p.slack then some p else none
   | .maxHeld m => if m ≤ p.cap then some p else none
   | .fin a w => if a = 0 ∧ w = 0 ∧ p.held.isEmpty then some p else none
   | .wedged => none
